@@ -50,6 +50,8 @@ POOL = {
     "setB(uint256)": e2e.arg(0) + [("PUSH", 1), "SSTORE"],
     "setB2(uint256)": require(["PUSH0", "SLOAD"]) + e2e.arg(0) + [("PUSH", 1), "SSTORE"],
     "tset(uint256)": e2e.arg(0) + ["PUSH0", "TSTORE"] + e2e.arg(0) + [("PUSH", 2), "SSTORE"],
+    "mark()": ["TIMESTAMP", ("PUSH", 3), "SSTORE", ("PUSH", 1), ("PUSH", 4), "SSTORE"],
+    "hit()": [("PUSH", 4), "SLOAD", ("PUSH", 3), "SLOAD", "TIMESTAMP", "EQ", "AND", ("PUSHL", "h"), "JUMPI", "STOP", ("LABEL", "h"), ("PUSH", 55), "PUSH0", "SSTORE"],
     "seed(uint256)": require([("PUSH", 3)] + e2e.arg(0) + ["LT"]) + e2e.arg(0) + [("PUSH", 5), "MUL", ("PUSH", 1), "SSTORE"],
 }
 TGET = ("tget()", ["PUSH0", "TLOAD"] + ret_word())
@@ -78,6 +80,7 @@ INVARIANTS = {
     "nested!(x==5&&y==7)": lambda K: get("x()") + [("PUSH", 5), "EQ", ("PUSHL", "a"), "JUMPI", "STOP", ("LABEL", "a")] + get("y()") + [
         ("PUSH", 7), "EQ", ("PUSHL", "bad"), "JUMPI", "STOP", ("LABEL", "bad")] + e2e.panic(1),
     "tget==0": lambda K: fail_if(get("tget()") + ["ISZERO", "ISZERO"]),
+    "y<K": lambda K: fail_if([("PUSH", K)] + get("y()") + ["LT", "ISZERO"]),
     "x!=y+K": lambda K: fail_if(get("x()") + get("y()") + [("PUSH", K), "ADD", "EQ"]),
 }
 
@@ -145,6 +148,11 @@ def handmade():
                         exclude_selectors=[["inc()"], ["x()"]]))
         # transient storage starts empty in every transaction (the invariant call is a new transaction)
         out.append(dict(fns=["tset(uint256)", "inc()"], inv="tget==0", K=0, depth=d, senders=None, k=f"transient-reset-d{d}", seed=0))
+        # two calls in the same block (timestamps are non-decreasing, not strictly increasing)
+        out.append(dict(fns=["mark()", "hit()"], inv="x!=K", K=55, depth=d + 1, senders=None, k=f"same-timestamp-d{d+1}", seed=0))
+        # the call value is bounded by the SENDER's balance (setUp deals 5 wei to the only admissible sender)
+        out.append(dict(fns=["deposit()"], inv="y<K", K=6, depth=d + 1, senders=("target", [S1]), k=f"sender-balance-d{d+1}", seed=0, deal=(S1, 5)))
+        out.append(dict(fns=["deposit()"], inv="y<K", K=5, depth=d + 1, senders=("target", [S1]), k=f"sender-balance-reach-d{d+1}", seed=0, deal=(S1, 5)))
         out.append(dict(fns=["unlock()", "inc()"], inv="x!=K", K=77, depth=d, senders=None, k=f"unlock-d{d}", seed=0))
         out.append(dict(fns=["inc()", "trap(uint256)"], inv="x<K", K=10, depth=d + 1, senders=None, k=f"trap-d{d+1}", seed=0))
     return out
@@ -154,7 +162,11 @@ def build(case):
     tfns = [(s, POOL[s], "payable") if s in PAYABLE else (s, POOL[s]) for s in case["fns"]] + GETTERS + (
         [TGET] if "tset(uint256)" in case["fns"] or case["inv"] == "tget==0" else [])
     target = e2e.Spec("Tgt", fns=tfns)
-    tfn = [("setUp()", e2e.create_from_data("tgt", store_slot=0)), ("invariant_i()", INVARIANTS[case["inv"]](case["K"]))]
+    setup_items = e2e.create_from_data("tgt", store_slot=0)
+    if case.get("deal"):
+        who, amount = case["deal"]
+        setup_items += e2e.call_cheat("deal(address,uint256)", [[("PUSH", who, 20)], [("PUSH", amount)]]) + ["POP"]
+    tfn = [("setUp()", setup_items), ("invariant_i()", INVARIANTS[case["inv"]](case["K"]))]
     ts, xs = [], []
     sd = case["senders"]
     tsel = case.get("target_selectors")
